@@ -297,8 +297,16 @@ pub fn run(args: &[String]) -> String {
             for h in MODES {
                 for m in &mods {
                     for (n, k) in KEYCODES {
-                        let a = map(&w, *k, m, h);
-                        let b = map(l, *k, m, h);
+                        // a panic is an outcome too: the wrapper must panic exactly where the wrapped layout does
+                        let a = std::panic::catch_unwind(std::panic::AssertUnwindSafe(|| map(&w, *k, m, h)));
+                        let b = std::panic::catch_unwind(std::panic::AssertUnwindSafe(|| map(l, *k, m, h)));
+                        let (a, b) = match (a, b) {
+                            (Ok(a), Ok(b)) => (a, b),
+                            (Err(_), Err(_)) => continue,
+                            (a, b) => {
+                                return format!("FAILS C17: wrapper {} {} but {} {} for key={} mods={} mode={} | replay: layout {} {} {} {} ; layout {} {} {} {}", w, if a.is_err() { "panics" } else { "returns" }, l, if b.is_err() { "panics" } else { "returns" }, n, mods_to_bits(m), mode_name(h), w, n, mods_to_bits(m), mode_name(h), l, n, mods_to_bits(m), mode_name(h));
+                            }
+                        };
                         if a != b {
                             return format!("FAILS C17: wrapper {} returns {} but {} returns {} for key={} mods={} mode={} | replay: layout {} {} {} {} ; layout {} {} {} {}", w, fmt_decoded(a), l, fmt_decoded(b), n, mods_to_bits(m), mode_name(h), w, n, mods_to_bits(m), mode_name(h), l, n, mods_to_bits(m), mode_name(h));
                         }
